@@ -9,7 +9,7 @@ Local Open Scope string_scope.
 Definition guard_facts : list nat :=
   [decode_var_len_check; decode_glob_nil_check; decode_platform_nil_check; decode_requires_nil_check;
    decode_snippet_clamp; decode_git_len_check; decode_wildcard_quotemeta; decode_wildcard_mustcompile;
-   decode_traverse_struct_check; decode_omap_nil_check].
+   decode_traverse_struct_check; decode_omap_nil_check; decode_deepcopy_nil_check].
 
 (* every fact has a shape the extractor recognised (0 or 1) *)
 Definition facts_recognised : bool := forallb (fun x => Nat.ltb x 2) guard_facts.
@@ -26,7 +26,8 @@ Definition current : variant :=
      g_wc_quote := on decode_wildcard_quotemeta;
      g_wc_must := negb (Nat.eqb decode_wildcard_mustcompile 0);
      g_traverse_struct := on decode_traverse_struct_check;
-     g_omap_nil := on decode_omap_nil_check |}.
+     g_omap_nil := on decode_omap_nil_check;
+     g_deepcopy_nil := on decode_deepcopy_nil_check |}.
 
 (* the exit codes the project documents (errors/errors.go) *)
 Definition documented (c : N) : bool := existsb (fun p => N.eqb (snd p) c) decode_exit_codes.
